@@ -391,6 +391,7 @@ class ConfigLoader(BaseLoader):
         BaseLoader.__init__(self)
         self.schema = schema
         self._private_schema = False
+        self._active_urls = []
 
     def loadResource(self, resource):
         sm = self.createSchemaMatcher()
@@ -438,8 +439,20 @@ class ConfigLoader(BaseLoader):
     # internal helper
 
     def _parse_resource(self, matcher, resource, defines=None):
-        parser = ZConfig.cfgparser.ZConfigParser(resource, self, defines)
-        parser.parse(matcher)
+        # the URLs of the resources being parsed, outermost first; a
+        # resource that includes itself (directly or not) never ends
+        active = self._active_urls
+        if resource.url and resource.url in active:
+            raise ZConfig.ConfigurationError(
+                "resource includes itself: " + " -> ".join(
+                    active[active.index(resource.url):] + [resource.url]),
+                resource.url)
+        active.append(resource.url)
+        try:
+            parser = ZConfig.cfgparser.ZConfigParser(resource, self, defines)
+            parser.parse(matcher)
+        finally:
+            active.pop()
 
 
 class CompositeHandler:
